@@ -47,22 +47,35 @@ def enc_operand_spec():
             arms.append("        dr::Operand::%s(v) => enc_str(str_bytes(v))," % v)
         else:
             raise Lost("dr::Operand::%s: payload type %s has no encoding rule" % (v, ty))
-    push_arms = []
+    push_arms, facts, calls = [], [], []
     for a in arms:
-        m = re.match(r"^(\s+dr::Operand::\w+\(v\) => )(.*?),(\s*//.*)?$", a)
-        rhs = m.group(2)
+        m = re.match(r"^(\s+dr::Operand::(\w+)\(v\) => )(.*?),(\s*//.*)?$", a)
+        rhs = m.group(3)
+        V = m.group(2)
+        ty = dict(operand_variants())[V]
         mm = re.match(r"^seq!\[(.*)\]$", rhs)
         if mm:
             words = [w.strip() for w in mm.group(1).split(", ")]
-            push_arms.append(m.group(1) + "s" + "".join(".push(%s)" % w for w in words) + ",")
+            app = "s" + "".join(".push(%s)" % w for w in words)
         else:
-            push_arms.append(m.group(1) + "s + " + rhs + ",")
-    return ("// C02: the encoding the SPIR-V specification prescribes, per payload type of dr::Operand (O1)\n"
-            "#[verifier::opaque]\npub open spec fn enc_operand(op: dr::Operand) -> Seq<u32> {\n    match op {\n%s\n    }\n}\n"
-            "// the same encoding as an append to an existing word sequence (push by push), and the lemma tying the two\n"
-            "#[verifier::opaque]\npub open spec fn append_operand(s: Seq<u32>, op: dr::Operand) -> Seq<u32> {\n    match op {\n%s\n    }\n}\n"
-            "#[verifier::rlimit(100)]\n#[verifier::spinoff_prover]\npub proof fn append_operand_is_enc(s: Seq<u32>, op: dr::Operand)\n    ensures append_operand(s, op) =~= s + enc_operand(op),\n{ reveal(append_operand); reveal(enc_operand); }"
-            % ("\n".join(arms), "\n".join(push_arms)))
+            app = "s + " + rhs
+        push_arms.append(m.group(1) + app + ",")
+        facts.append("pub proof fn operand_facts_%s(s: Seq<u32>, v: %s)\n    ensures append_operand(s, dr::Operand::%s(v)) == %s, enc_operand(dr::Operand::%s(v)) == %s,\n"
+                     "{ reveal(append_operand); reveal(enc_operand); }" % (V, ty, V, app, V, rhs))
+        calls.append("        dr::Operand::%s(v) => { operand_facts_%s(s, v); }" % (V, V))
+    out = ("// C02: the encoding the SPIR-V specification prescribes, per payload type of dr::Operand (O1)\n"
+           "#[verifier::opaque]\npub open spec fn enc_operand(op: dr::Operand) -> Seq<u32> {\n    match op {\n%s\n    }\n}\n"
+           "// the same encoding as an append to an existing word sequence (push by push)\n"
+           "#[verifier::opaque]\npub open spec fn append_operand(s: Seq<u32>, op: dr::Operand) -> Seq<u32> {\n    match op {\n%s\n    }\n}\n"
+           % ("\n".join(arms), "\n".join(push_arms)))
+    # per-variant unfoldings, each in its own small query; grouped in modules so they run in parallel
+    for k in range(0, len(facts), 8):
+        out += ("pub mod facts_%d { use vstd::prelude::*; use crate::dr; use crate::spirv; use super::*;\n%s\n}\npub use self::facts_%d::*;\n"
+                % (k, "\n".join(facts[k:k + 8]), k))
+    out += ("// all variants: unfolding of both forms (no reveal here: only the per-variant lemmas)\n"
+            "pub proof fn operand_facts(s: Seq<u32>, op: dr::Operand)\n    ensures append_operand(s, op) =~= s + enc_operand(op),\n{\n    match op {\n%s\n    }\n}\n"
+            % "\n".join(calls))
+    return out
 
 
 PRELUDE = r"""
@@ -96,6 +109,7 @@ pub open spec fn inst_len(i: dr::Instruction) -> int {
 // the opcode's number, hidden from queries that do not need the 787-variant cast
 #[verifier::opaque]
 pub open spec fn op_word(op: spirv::Op) -> u32 { op as u32 }
+pub proof fn op_word_is_cast(op: spirv::Op) ensures op_word(op) == op as u32 { reveal(op_word); }
 // C02: first word (word count << 16 | opcode), then result type, result id, operands in order
 pub open spec fn enc_inst(i: dr::Instruction) -> Seq<u32> {
     seq![(op_word(i.class.opcode) | ((inst_len(i) as u32) << 16)) as u32] + opt_word(i.result_type) + opt_word(i.result_id)
@@ -169,17 +183,18 @@ pub fn extend_words(v: &mut Vec<u32>, s: &[u32])
         emit("ModuleHeader", """ensures final(result)@ =~= old(result)@ + seq![self.magic_number, self.version, self.generator, self.bound, self.reserved_word],""")
 
         def op_edit(p):
-            p.insert_at("{", " proof { append_operand_is_enc(result@, *self); reveal(append_operand); } ", where="after", nth=1, tag="ghost")
+            # ghost: per-variant unfolding of the spec for the operand at hand (generated from the enum declaration)
+            arms_ = "\n".join("            dr::Operand::%s(v) => { operand_facts_%s(result@, *v); }" % (V, V) for V, _ in operand_variants())
+            p.insert_at("{", " proof { operand_facts(result@, *self); match self {\n%s\n            } } " % arms_, where="after", nth=1, tag="ghost")
         emit("Operand", """ensures final(result)@ == append_operand(old(result)@, *self), final(result)@ =~= old(result)@ + enc_operand(*self),""", op_edit)
 
         def inst_edit(p):
             p.sub(r"for operand in &self\.operands", "for operand in iter: &self.operands", "G1", count=1)
-            p.insert_at("result.push(self.class.opcode as u32);", " proof { reveal(op_word); } ", where="after", nth=1, tag="ghost")
+            p.insert_at("result.push(self.class.opcode as u32);", " proof { op_word_is_cast(self.class.opcode); } ", where="after", nth=1, tag="ghost")
             p.insert_at("let end = result.len() - start;", """
         proof {
             assert(result@.len() == start + inst_len(*self));
             assert(end == inst_len(*self));
-            reveal(op_word);
             assert(result@[start as int] == op_word(self.class.opcode));
         }
         let ghost pre = result@;
